@@ -411,6 +411,13 @@ impl Gate {
     pub fn is_open(&self) -> bool {
         self.0.lock().unwrap().0
     }
+    /// Register a waker to be woken when the gate opens (no-op if already open).
+    pub fn register(&self, w: &Waker) {
+        let mut g = self.0.lock().unwrap();
+        if !g.0 {
+            g.1.push(w.clone());
+        }
+    }
     pub fn wait(&self) -> impl Future<Output = ()> + Send {
         let g = self.clone();
         poll_fn(move |cx| {
